@@ -33,7 +33,10 @@ ASSUMPTIONS = [
 ]
 
 PRESETS = ["auto", "greedy", "optimal", "auto-hq"]
-FUNCS = ["einsum", "array_contract", "path", "tree", "expression", "expression_reuse", "einsum_expression", "einsum_expression_constants"]
+FUNCS = ["einsum", "array_contract", "path", "tree", "expression", "expression_reuse", "einsum_expression", "einsum_expression_constants", "einsum_ellipsis"]
+# the same equation string is used with different numbers of ellipsis
+# dimensions from call to call (parsing is cached on (equation, shapes))
+ELL_EQS = ["a...,a...->...", "...a,a...->...", "a...,...->a...", "...ab,b->...a", "a...,a...", "...,...->..."]
 
 
 @st.composite
@@ -219,6 +222,25 @@ def run_case(spec, sub=None):
             """perform the call with caching on/off; returns a list of
             (result, expected, stripped) and optionally a path"""
             out = {"values": [], "path": None}
+            if fn == "einsum_ellipsis":
+                eq_e = ELL_EQS[call["vk"] % len(ELL_EQS)]
+                ne = call["aseed"] % 3  # 0, 1 or 2 ellipsis dims this time
+                edims = [2, 3][:ne]
+                lhs = eq_e.split("->")[0].split(",")
+                arrs = []
+                for j, term in enumerate(lhs):
+                    shp = []
+                    for part in term.replace("...", ".").replace(".", " . ").split():
+                        if part == ".":
+                            shp += edims
+                        else:
+                            shp += [2 + (ord(ch) % 2) for ch in part]
+                    rng = np.random.default_rng([call["aseed"], j, k])
+                    arrs.append(rng.integers(-2, 3, size=shp).astype(float))
+                want = np.einsum(eq_e, *arrs)
+                r = ctg.einsum(eq_e, *arrs, optimize="auto" if not o.startswith("p") else "greedy", cache_expression=cache)
+                out["values"].append((r, want, False))
+                return out
             if fn == "einsum":
                 r = ctg.einsum(eq, *arrays, optimize=optimize, strip_exponent=strip, cache_expression=cache, **kw)
                 out["values"].append((r, exp, bool(strip)))
